@@ -309,10 +309,22 @@ def gen_include_program(rnd, base):
             tags.append("host>local-before-include" + ("|repeated" if st.k == "repeat" else ""))
     main += body(outer + inner, "host>any", rnd.randrange(0, 4), back=["ga", "gb", "ia", "ib"])
     main += [apm.label("gc", extern=True), apm.data(".word", apm.num(0))]
+    aux2 = {}
+    if rnd.random() < 0.4:
+        # a small file with private labels, included from two places: each inclusion is a compilation of its own at its own address;
+        # its operands go through operators whose value depends on that address
+        e1 = ("bin", "*", ("bin", "/", ("sym", "twl"), apm.num(2)), apm.num(2))
+        e2 = ("bin", "+", ("bin", "<<", ("bin", ">>", ("dot",), apm.num(1)), apm.num(1)), apm.num(2 * rnd.randrange(1, 4)))
+        body2 = [apm.label("twl"), apm.data(".word", apm.num(5)), apm.insn("mov", ("rel", e1), ("reg", rnd.randrange(6))), apm.insn("clr", ("reld", e1)),
+                 apm.insn(rnd.choice(["br", "bne"]), ("br", e2)), apm.insn("nop"), apm.insn("nop"), apm.insn("nop"),
+                 apm.insn("cmp", ("rel", ("bin", "+", ("bin", "%", ("sym", "twl"), apm.num(0o1000)), ("bin", "-", ("sym", "twl"), ("bin", "%", ("sym", "twl"), apm.num(0o1000))))), ("reg", 1))]
+        aux2["tw4.mac"] = apm.SrcFile("tw4.mac", body2)
+        main += [apm.include("tw4.mac"), apm.blk(".blkb", apm.num(2 * rnd.randrange(0, 20))), apm.include("tw4.mac")]
+        tags.append("include-twice|impure-operators")
     if site == "last":
         main.append(apm.link(apm.num(base)))
     tags = [f"{t}|link-{site}" for t in tags]
-    return apm.Program([apm.SrcFile("main.mac", main)], aux={"inc.mac": apm.SrcFile("inc.mac", inc)}), tags
+    return apm.Program([apm.SrcFile("main.mac", main)], aux=dict(aux2, **{"inc.mac": apm.SrcFile("inc.mac", inc)})), tags
 
 
 def gen_multifile_program(rnd, base):
